@@ -95,7 +95,7 @@ CHECKS = {
               "except the configuration cell assigned once inside configOnce.Do. PARTIAL: freedom from data races is a fact about the Go memory model that no executable model exhibits; it is "
               "sampled by a -race build. Tied to the code by byte comparison of the normalised -json output (package, analyzer, position, full text) of repeated parallel runs, the sequential "
               "driver, permuted and reversed package lists, single-world runs, on DAG worlds, a hot module (16 packages x 60 annotated declarations analysed concurrently) and a package that "
-              "exists in two type-checked instances (test variants); and by the race detector. PARSE ORDER (C11_suppression_is_file_local): the markers a file's @ignore comments give rise to lie inside that file's range of positions, ranges of different files are disjoint, hence the suppression decision at a position of file g is the decision under g's own comments and the project-wide exclusion - the other files, and the order in which the concurrently parsed files were given their ranges, do not occur in it (input conditions x_ranges_ok, x_pos_ok evaluated on every serialised package)."),
+              "exists in two type-checked instances (test variants); and by the race detector. PARSE ORDER (C11_suppression_is_file_local): the markers a file's @ignore comments give rise to lie inside that file's range of positions, ranges of different files are disjoint, hence the suppression decision at a position of file g is the decision under g's own comments and the project-wide exclusion - the other files, and the order in which the concurrently parsed files were given their ranges, do not occur in it (input conditions x_ranges_ok, x_pos_ok evaluated on every serialised package). Every diagnostic of the four AST checkers stands at a node of a declaration of a kept file g (C17_positioned_at_a_node_of_a_kept_file) and whether it is suppressed is decided by g's own comments and exclude-checks (C11_a_diagnostic_is_decided_by_its_own_file)."),
         note="The race detector samples schedules; the theorem covers logical non-interference (no action reads anything but its declared inputs).",
         technique="Coq proof (schedule independence by invariant; shared-state obligation on the regenerated inventory) + byte-level output comparison across schedules and a -race build"),
     "C07": dict(
@@ -106,7 +106,7 @@ CHECKS = {
               "parser), everything else decided as before; for report-time checkers the new output is the FILTER of the old one; for TONL01/PKGO01 the reported use of a key is the first "
               "unsuppressed one, for every suppression function. Tied to the code by generated worlds with @ignore comments inserted at the property's placements, stratified over placement x line "
               "shape x code category x code-list class: binary = model by (file,line,code), and binary(with comments) = binary(without) minus the matching diagnostics inside the documented scope "
-              "computed from go/parser positions (an oracle independent of the model). END TO END (C07_whole_analysis_one_more_comment): one more @ignore comment anywhere in the comment list of a non-excluded file gives the same annotations and exactly the diagnostics of the original analysis re-decided under 'covered by the new marker, or suppressed as before' (the marker order is irrelevant: the decision is an existsb over the history); for IMPL / IMM / CTOR codes a diagnostic is in the new result iff it was in the old one and is not covered (C07_whole_analysis_report_time_effect)."),
+              "computed from go/parser positions (an oracle independent of the model). END TO END (C07_whole_analysis_one_more_comment): one more @ignore comment anywhere in the comment list of a non-excluded file gives the same annotations and exactly the diagnostics of the original analysis re-decided under 'covered by the new marker, or suppressed as before' (the marker order is irrelevant: the decision is an existsb over the history); for IMPL / IMM / CTOR codes a diagnostic is in the new result iff it was in the old one and is not covered (C07_whole_analysis_report_time_effect). ACROSS FILES: the scope of a comment lies inside its own file's range of positions, so for every IMPL / IMM / CTOR diagnostic positioned outside that range membership in the result is unchanged (C07_other_files_unchanged), and the TONL / PKGO lists of every other file are literally the same (C07_other_files_once_per_file_unchanged)."),
         note="A stand-alone comment that is the last thing of its block, precedes a case clause or sits inside a multi-line expression, and files with //line directives, are left unspecified (DESIGN 5.1).",
         technique="Coq proof (pruned-walk = first node after the comment; marker = filter; first-unsuppressed-use) + model and text-oracle correspondence through the real binary"),
     "C17": dict(
@@ -116,7 +116,7 @@ CHECKS = {
               "parses to exactly [CODE] for all 16 codes; one more marker [CODE] over the diagnostic's line suppresses it and leaves every diagnostic on another line, or with another table "
               "code, decided as before. Tied to the code on every diagnostic of generated worlds (all 16 codes, two configurations): header shape, table membership, analyzer of the category "
               "(names regenerated from analyzer.go), file of the reporting package and not excluded, help line; FULL message text byte-equal to the model's rendering for all five categories; "
-              "a stratified sample re-run with `// @ignore CODE` appended (C07 text oracle + model); text-mode exit status vs printed diagnostics."),
+              "a stratified sample re-run with `// @ignore CODE` appended (C07 text oracle + model); text-mode exit status vs printed diagnostics. Position: every diagnostic of the four AST checkers stands at the position of a NODE of a top-level declaration of a kept file - the node itself, one of its operands or a declared name - hence inside that file's own range of positions (C17_positioned_at_a_node_of_a_kept_file, by a fold invariant over the walk)."),
         note="Lines already ending in a // comment are skipped for the suppression step. Exit status: multichecker's (library behaviour, observed).",
         technique="Coq proof (code lemmas per checker, message shape, own-code marker) + per-diagnostic and full-text correspondence through the real binary"),
     "C10": dict(
